@@ -48,8 +48,11 @@ def run_cases(exe, mexe, cases, auto=2):
         j = json.dumps(v, ensure_ascii=True, separators=(",", ":"))
         il.append("%d %s %s" % (w, u, fmt_list([ord(x) for x in j])))
         ml.append("%d %d %s %s" % (w, auto, u, "|".join(ta.ser_value(v))))
-    impl, crashes = vlib.run_sharded(exe, [], il, timeout=3600)
-    model, _ = vlib.run_sharded(mexe, [], ml, timeout=3600)
+    # a shard that exceeds the time limit is re-run case by case; a case that exceeds CASE_TIMEOUT becomes "CRASH TIMEOUT"
+    # on that side, i.e. a mismatch (a finding candidate), never a hang
+    limit = max(SHARD_TIMEOUT, len(cases) // 20)
+    impl, crashes = vlib.run_sharded(exe, [], il, timeout=limit, case_timeout=CASE_TIMEOUT)
+    model, _ = vlib.run_sharded(mexe, [], ml, timeout=limit, case_timeout=CASE_TIMEOUT)
     out = []
     for (w, t, c, v), i, m in zip(cases, impl, model):
         if i == "":
@@ -58,21 +61,45 @@ def run_cases(exe, mexe, cases, auto=2):
     return out
 
 
+CASE_TIMEOUT = 20
+SHARD_TIMEOUT = 300
+WORK_BOUND = 4000      # bound on fan-out ** (number of <loop in the text): nested loops repeat their body fan-out times each
+SMALL2 = {"a": "x", "b": "y"}
+SMALL1 = {"a": "x"}
+
+
+def fan_out(v):
+    """the largest number of members of a container in the value (what one loop can iterate over)"""
+    if isinstance(v, dict):
+        return max([len(v)] + [fan_out(x) for x in v.values()] + [1])
+    if isinstance(v, list):
+        return max([len(v)] + [fan_out(x) for x in v] + [1])
+    return 1
+
+
+def bounded_value(t, v):
+    """the value itself when rendering [t] with it stays within WORK_BOUND body repetitions, else a smaller one"""
+    loops = t.count("<loop")          # an upper bound of the nesting depth (unclosed / abandoned loops included)
+    for cand in (v, SMALL2, SMALL1):
+        f = fan_out(cand)
+        if f <= 1 or loops == 0 or f ** min(loops, 64) <= WORK_BOUND:
+            return cand
+    return SMALL1
+
+
 def gen_cases(rng, n, with_boundary=True, maxlen=9000):
     texts = tparse.resolve_asts(rng, tparse.gen_texts(rng, n))
     if with_boundary:
         texts = [(rng.choice([0, 1, 2, 3]), t, "boundary") for t in tparse.boundary_texts() + EXTRA if len(t) < maxlen] + texts
     cases = []
     for (w, t, c) in texts:
-        if t.count("<loop") > 5:
-            v = {"a": "x"}          # nested loops over the root: keep the work linear
-        elif rng.random() < 0.6:
+        if rng.random() < 0.6:
             v = FIXED
         else:
             v, sortable = ta.gen_root(rng)
             if "sort" in t and not sortable:
                 v = FIXED           # TmplModel.sort_set orders naturals / strings / object keys only (C02 domain)
-        cases.append((w, t, c, v))
+        cases.append((w, t, c, bounded_value(t, v)))
     return cases
 
 
